@@ -369,3 +369,25 @@ pub fn time_reps(w: &World, detail: TimeDetail) -> Vec<u64> {
     v.dedup();
     v
 }
+
+
+/// Messages that are NOT responses but carry the transaction id of an outstanding request (a reflected request, an
+/// indication that happens to reuse the id), authenticated the way the configured mechanism expects: whatever the client
+/// does with them, the request itself must be unaffected.
+pub fn id_tie_events(w: &World) -> Vec<Event> {
+    use super::server::{RClass, RFp, RMac, Reply};
+    use super::world::Mech;
+    let mac = match w.cfg.mech {
+        Mech::None => RMac::None,
+        Mech::ShortTerm(Some(true)) => RMac::Sha,
+        _ => RMac::Mi,
+    };
+    let fp = if w.cfg.fingerprint { RFp::Valid } else { RFp::Absent };
+    let mut v = vec![];
+    for i in w.awaiting().into_iter().take(2) {
+        for class in [RClass::Indication, RClass::Request] {
+            v.push(Event::Deliver { to: Target::Req(i), reply: Reply::plain(class).with_mac(mac).with_fp(fp) });
+        }
+    }
+    v
+}
